@@ -15,3 +15,17 @@ def extra_prefixes_only(line, detail):
     if not impl or not model:
         return False
     return impl[0] == model[0] and model[1] < impl[1]
+
+def _fields(text):
+    return dict(t.split("=", 1) for t in text.split() if "=" in t)
+
+def only_full_diff(line, detail):
+    """C15 tally: the only requirement missed is full_diff=0 (no panic, nothing else)"""
+    if " -> sum " not in line:
+        return False
+    impl = _fields(line.split(" -> ", 1)[1]); model = _fields(detail)
+    bad = [k for k in model if k in impl and k != "first" and model[k] != impl[k]]
+    return bad == ["full_diff"] and impl.get("panics") == "0"
+
+def is_abort(line, detail):
+    return line.endswith(" -> abort")
